@@ -76,6 +76,8 @@ DEFAULT_KEYS_COMPUTED = ["comp"]
 _IDENT = {"id0": (False, None), "id_a2": (True, 2), "id_3": (False, 3), "id_a": (True, None)}
 
 COMMENTS = ["hello", "second note", "x", ""]
+# column names of the identifier-quoting classes (mixed case, reserved word, space, quote character, bracket)
+QUOTED_NAMES = ["Balance", "order", "my col", "it's", "a]b", "c1"]
 NEW_NAMES = ["c2", "c3", "c1"]  # c1 = rename to the same name
 
 # ---------------------------------------------------------------------------------------------
@@ -302,13 +304,13 @@ def _ident_opts(s):
     return False, None
 
 
-def _constraint_stmts(s):
+def _constraint_stmts(s, idpat=ID, unq=lambda x: x):
     m = re.fullmatch(r"ALTER TABLE %s DROP CONSTRAINT %s" % (TREF, ID), s)
     if m:
         return {"k": "dropConstraint", **_t(m), "name": m.group(3)}
-    m = re.fullmatch(r"ALTER TABLE %s ADD (?:CONSTRAINT %s )?CHECK \(%s IN \(.*\)\)" % (TREF, ID, ID), s)
+    m = re.fullmatch(r"ALTER TABLE %s ADD (?:CONSTRAINT %s )?CHECK \(%s IN \(.*\)\)" % (TREF, ID, idpat), s)
     if m:
-        return {"k": "addConstraint", **_t(m), "name": m.group(3), "col": m.group(4)}
+        return {"k": "addConstraint", **_t(m), "name": m.group(3), "col": unq(m.group(4))}
     return None
 
 
@@ -404,33 +406,59 @@ def _parse_mysql(s):
     return _constraint_stmts(s)
 
 
+# MSSQL: identifiers may be bracketed ([My Col], ] doubled); names embedded in T-SQL string literals have ' doubled.
+IDM = r"(\[(?:[^\]]|\]\])+\]|\w+)"
+LIT = r"'((?:[^']|'')*)'"
+
+
+def _unq_m(tok):
+    """the name a T-SQL identifier token denotes"""
+    if tok.startswith("["):
+        return tok[1:-1].replace("]]", "]")
+    return tok
+
+
+def _unlit(body):
+    """the string a T-SQL string literal body denotes"""
+    return body.replace("''", "'")
+
+
 _MSSQL_DROP = re.compile(
     r"declare @const_name varchar\(256\)\n"
     r"select @const_name = QUOTENAME\(\[name\]\) from sys\.default_constraints\n"
-    r"where parent_object_id = object_id\('%s'\)\n"
-    r"and col_name\(parent_object_id, parent_column_id\) = '%s'\n"
-    r"exec\('alter table %s drop constraint ' \+ @const_name\)" % (TREF, ID, TREF)
+    r"where parent_object_id = object_id\(%s\)\n"
+    r"and col_name\(parent_object_id, parent_column_id\) = %s\n"
+    r"exec\('alter table ((?:[^']|'')*) drop constraint ' \+ @const_name\)" % (LIT, LIT)
 )
 
 
 def _parse_mssql(s):
     m = _MSSQL_DROP.fullmatch(s)
     if m:
-        # the table is named twice: both must agree, otherwise the statement is not understood
-        if (m.group(1), m.group(2)) != (m.group(4), m.group(5)):
+        # three names inside string literals: the table object_id() looks up, the string col_name() is compared
+        # with (kept verbatim after undoing the literal escaping: it has to BE the column name), and the table of
+        # the inner ALTER TABLE.  All three go to the model comparison and to the Lean spec.
+        obj = re.fullmatch(TREF, _unlit(m.group(1)))
+        inner = re.fullmatch(TREF, _unlit(m.group(3)))
+        if not obj or not inner:
             return None
-        return {"k": "mssqlDropDefault", **_t(m), "col": m.group(3)}
-    m = re.fullmatch(r"EXEC sp_rename '%s\.%s', %s, 'COLUMN'" % (TREF, ID, ID), s)
+        return {"k": "mssqlDropDefault", "schema": inner.group(1), "table": inner.group(2),
+                "objSchema": obj.group(1), "objTable": obj.group(2), "col": _unlit(m.group(2))}
+    m = re.fullmatch(r"EXEC sp_rename %s, %s, 'COLUMN'" % (LIT, IDM), s)
     if m:
-        return {"k": "rename", **_t(m), "col": m.group(3), "new": m.group(4)}
-    m = re.fullmatch(r"ALTER TABLE %s ADD DEFAULT (.+) FOR %s" % (TREF, ID), s)
+        inner = re.fullmatch(r"%s\.%s" % (TREF, IDM), _unlit(m.group(1)))
+        if not inner:
+            return None
+        return {"k": "rename", "schema": inner.group(1), "table": inner.group(2), "col": _unq_m(inner.group(3)),
+                "new": _unq_m(m.group(2))}
+    m = re.fullmatch(r"ALTER TABLE %s ADD DEFAULT (.+) FOR %s" % (TREF, IDM), s)
     if m:
-        return {"k": "mssqlAddDefault", **_t(m), "col": m.group(4), "d": m.group(3)}
-    m = re.fullmatch(r"ALTER TABLE %s ALTER COLUMN %s (.+?)( NOT NULL| NULL)?" % (TREF, ID), s)
+        return {"k": "mssqlAddDefault", **_t(m), "col": _unq_m(m.group(4)), "d": m.group(3)}
+    m = re.fullmatch(r"ALTER TABLE %s ALTER COLUMN %s (.+?)( NOT NULL| NULL)?" % (TREF, IDM), s)
     if m:
         n = None if m.group(5) is None else (m.group(5).strip() == "NULL")
-        return {"k": "mssqlAlter", **_t(m), "col": m.group(3), "ty": m.group(4), "n": n}
-    return _constraint_stmts(s)
+        return {"k": "mssqlAlter", **_t(m), "col": _unq_m(m.group(3)), "ty": m.group(4), "n": n}
+    return _constraint_stmts(s, IDM, _unq_m)
 
 
 def _parse_oracle(s):
